@@ -408,6 +408,13 @@ func bjjFaults() []bjjFault {
 		{name: "state-nil", apply: func(s *verifySetup, p *verifiable.BJJSignatureProof2021, x *bjjCtx, r *Rng) {
 			p.IssuerData.State.Value = nil
 		}},
+		{name: "state-near-miss-published", apply: func(s *verifySetup, p *verifiable.BJJSignatureProof2021, x *bjjCtx, r *Rng) {
+			p.IssuerData.State.Value = hexOfInt(nearMiss(s.is.State(), r))
+			x.res.mode = "published"
+		}},
+		{name: "claims-root-near-miss", apply: func(s *verifySetup, p *verifiable.BJJSignatureProof2021, x *bjjCtx, r *Rng) {
+			p.IssuerData.State.ClaimsTreeRoot = hexOfInt(nearMiss(s.is.claims.Root().BigInt(), r))
+		}},
 		{name: "state-bad-hex", apply: func(s *verifySetup, p *verifiable.BJJSignatureProof2021, x *bjjCtx, r *Rng) {
 			p.IssuerData.State.Value = strp("zz")
 		}},
